@@ -22,7 +22,7 @@ TIMEOUT = {'quick': 1500, 'thorough': 4 * 3600}
 RULE = ('A case is one input (module index or .mm file) x the set of configurations it was run under. distinct_nontrivial = inputs run under at least two '
         'configurations that produced at least one non-empty file.')
 ASSUMPTIONS = ['fresh subprocess per (batch, hash seed); determinism across machines/Python versions is out of scope']
-FLOORS = {'quick': {'module_inputs': 60, 'hash_seeds': 8, 'history_cases': 40, 'translate_inputs': 2, 'inputs_with_memoisation': 20, 'mm_multi_var_targets': 0}}
+FLOORS = {'quick': {'module_inputs': 60, 'hash_seeds': 8, 'history_cases': 40, 'translate_inputs': 2, 'inputs_with_memoisation': 20, 'mm_multi_var_targets': 10}}
 FLOORS['thorough'] = dict(FLOORS['quick'], module_inputs=1000, hash_seeds=32, history_cases=500)
 
 MM_SKIP = {'transfer.mm', 'transfer5000.mm', 'transfer-largest-slice.mm', 'disjointness-alt-lemma.mm', 'svm5.mm', 'perceptron.mm', 'impreflex.mm', 'impreflex-compressed.mm'}
@@ -89,12 +89,26 @@ def shard(ctx):
     gen_files = []
     try:
         from ..gen import mmdb
-        if hasattr(mmdb, 'write_random_databases'):
-            gen_files = mmdb.write_random_databases(ctx.rng, sc / 'mm', 3 if ctx.quick else 20)
-            ctx.count('mm_generated_inputs', len(gen_files))
+        (sc / 'mm').mkdir(parents=True, exist_ok=True)
+        want = 3 if ctx.quick else 20
+        tries = 0
+        while len(gen_files) < want and tries < 200:
+            tries += 1
+            g = mmdb.make_case(ctx.rng, max_rpn=400)
+            if g is None or 'builtin_roles_not_in_f_order' in g['features']:
+                continue
+            if len(g['tvars']) < 2 and ctx.rng.random() < 0.7:
+                continue      # targets with >= 2 metavariables are where hypothesis order matters
+            lay = ctx.rng.choice(sorted(g['layouts']))
+            f = sc / 'mm' / f'gen{ctx.shard}_{len(gen_files)}.mm'
+            f.write_text(g['layouts'][lay]['text'])
+            gen_files.append((f, g['target']))
+            ctx.count('mm_generated_inputs')
+            if len(g['tvars']) >= 2:
+                ctx.count('mm_multi_var_targets')
     except Exception as ex:
         ctx.note('mm_generator_unavailable', repr(ex)[:200])
-    mine = [f for i, f in enumerate(files) if i % ctx.nshards == ctx.shard] + [str(f) for f in gen_files]
+    mine = [f + '::goal' for i, f in enumerate(files) if i % ctx.nshards == ctx.shard] + [f'{f}::{t}' for f, t in gen_files]
     if mine:
         tr = {}
         for hs in seeds[:4] if ctx.quick else seeds[:16]:
